@@ -167,6 +167,7 @@ class MakeRebalancingRequest(Contract):
         cls = "Weights" if f["_as_weights"] else "NrContracts"
         alloc = I.new_rec(cls, _items=I.new_map(get, dom, None, "dict"))
         I.trace.append(("rebalancing_built",))
+        I.trace.append(("rebalance_request", lift_fl(c.time).v))
         return I.new_rec("Rebalancing", allocation=alloc, absolute=True, fractional=f["_fractional"], margin=f["_margin"],
                          time=c.time, profit_on_idle_cash=Opaque("..."), context_pre=Opaque("..."), trades=Opaque("..."),
                          context_post=Opaque("..."))
